@@ -18,7 +18,7 @@ OBLIGATIONS = [NS + t for t in [
     "flatten_eq_encode_select", "identity_eq_stored", "missing_marked",
     "targets_spec", "product_spec", "columns_total", "column2feature_spec",
     "history_view", "history_restore", "shuffle_is_reported_bijection",
-    "index_out_of_range_rejected", "empty_index_list_accepted",
+    "shuffled_reports", "index_out_of_range_rejected", "empty_index_list_accepted", "wf_reachable",
 ]]
 TRUSTED = [
     "Lean 4.33.0 kernel (core library only for this property; no Mathlib import)",
@@ -44,6 +44,11 @@ ASSUMPTIONS = [
     "under the asserted conditions (sample < samples(), feature < features())",
     "the gradient generator (image kernels) is outside the Lean model: its op lines are checked by the python oracle only "
     "(model_skip); the flatten/targets iterators are modelled at scaling = none (NaN -> 0 by dataset/stats.cpp nan2zero, as coded)",
+    "oracle relaxations (nothing is read in either case): select_iterator_t::loop over a kind of feature the dataset does not have "
+    "accepts an out-of-range sample list; targets_iterator_t::loop on an unsupervised dataset with an empty sample list does not throw",
+    "hypotheses of the theorems: Storage.WF / Dataset.WF (proved for everything built by resize, set, add and any history: "
+    "wf_reachable, sets_wf, adds_wf, run_keeps) and ClassValuesOk (stored labels / hits are non-negative: classValuesOk_resize/_set); "
+    "the reported permutation being a bijection is a hypothesis of shuffle_is_reported_bijection and is checked on every case",
     "memory safety is observed by the ASan/UBSan flavour of the thorough tier only",
 ]
 RULE = ("corpus; boundary schemas (samples in {1,7,8,9,15,16,17,...}, class counts {1,2,3,255,256,257,300}, all-missing and never-missing "
@@ -739,12 +744,18 @@ def make_case(rng, tier, N=None, specs=None, boundary=False):
             f = feat(); hist.append(("drop", f))
             if 0 <= f < F:
                 flags[f] = 1
+                if rng.chance(0.6):
+                    hist.append(("select", f, -1, sample_list(rng, N, allow_invalid=False)))
         elif r < 87:
             hist.append(("undrop",)); flags = [0] * F
         elif r < 94:
             f = feat(); hist.append(("shuffle", f))
             if 0 <= f < F:
                 flags[f] = 2
+                if rng.chance(0.5):
+                    hist.append(("shuffled", f, sample_list(rng, N, allow_invalid=GEN_SHUFFLED_OUT_OF_RANGE)))
+                if rng.chance(0.6):
+                    hist.append(("select", f, -1, sample_list(rng, N, allow_invalid=False)))
         elif r < 97:
             hist.append(("unshuffle",)); flags = [0] * F
         else:
